@@ -185,6 +185,17 @@ def bulgarian_clamps(repo):
                 arms.append((evs, inner[0], n))
     if len(arms) < 2:
         raise AnalysisError('bulgarian score(): clamp arms not found')
+    # names by definition: the table's min / max and the integer mark
+    mn = mx = None
+    for n in ast.walk(fn):
+        if isinstance(n, ast.Assign) and len(n.targets) == 1 and isinstance(n.targets[0], ast.Name) and isinstance(n.value, ast.Subscript) \
+                and isinstance(n.value.slice, ast.Constant):
+            if n.value.slice.value == 'min':
+                mn = n.targets[0].id
+            if n.value.slice.value == 'max':
+                mx = n.targets[0].id
+    if mn is None or mx is None:
+        raise AnalysisError('bulgarian score(): min / max of the table are not bound to names')
     for evs, chain, node in arms:
         # orientation of the tables of these events
         kinds = set()
@@ -208,11 +219,11 @@ def bulgarian_clamps(repo):
         (l1, o1, m1), (l2, o2, m2) = parts(t1), parts(c2.test)
         z = ast.unparse(r1.value) if isinstance(r1, ast.Return) else '?'
         top = ast.unparse(c2.body[-1].value) if isinstance(c2.body[-1], ast.Return) else '?'
-        want1 = ('Lt', 'min_val') if kind == 'up' else ('Gt', 'min_val')
-        want2 = ('Gt', 'max_val') if kind == 'up' else ('Lt', 'max_val')
+        want1 = ('Lt', mn) if kind == 'up' else ('Gt', mn)
+        want2 = ('Gt', mx) if kind == 'up' else ('Lt', mx)
         if (o1, m1) != want1 or z != '0' or (o2, m2) != want2 or top != '150':
             out.append('clamps for %s are `%s -> %s`, `%s -> %s`; with tables running from min=%s to max=%s they must be '
-                       '`int_perf %s min_val -> 0`, `int_perf %s max_val -> 150`' % (
+                       '`mark %s min -> 0`, `mark %s max -> 150`' % (
                            evs, ast.unparse(t1), z, ast.unparse(c2.test), top, 'worst', 'best',
                            '<' if kind == 'up' else '>', '>' if kind == 'up' else '<'))
     return out
